@@ -6,6 +6,7 @@
 -/
 import ApiFu.C17.Model
 import ApiFu.C17.Spec
+import ApiFu.C17.UrlCodec
 
 namespace ApiFu.C17
 
@@ -199,5 +200,21 @@ theorem pack_lawful : Lawful packCodec packEncoders where
     simp only [packCodec, packEncoders, unpackS_packS]
   payload_roundtrip q v op := by
     simp only [packCodec, packEncoders, unpackS_packS, optDec_optEnc]
+
+/-- The same codec with its URL functions replaced by the net/url transliteration. -/
+def goPackCodec : Codec String where
+  urlGet := Url.goUrlGet
+  mediaType := packCodec.mediaType
+  unmarshalMap := packCodec.unmarshalMap
+  decodeBody := packCodec.decodeBody
+  decodeMessage := packCodec.decodeMessage
+  decodePayload := packCodec.decodePayload
+
+def goPackEncoders : Encoders String where
+  urlEncode := Url.goUrlEncode
+  marshalMap := packEncoders.marshalMap
+  encodeBody := packEncoders.encodeBody
+  encodePayload := packEncoders.encodePayload
+  encodeMessage := packEncoders.encodeMessage
 
 end ApiFu.C17
